@@ -190,3 +190,48 @@ Example C09_ex_parse :
   parse_blocks ex_sync (concat (snd (enc_run ex_compress ex_sync 4 enc_init ex_ops))) =
   Some [(2, [200;7;201]); (3, [200;1;2;3;9;201]); (1, [200;1;2;3;4;201]); (1, [200;1;2;3;4;5;201])].
 Proof. vm_compute. reflexivity. Qed.
+
+(* ---- the FileWriter used directly, one FileWriter serving several files ----
+   An application with its own record encoder calls WriteHeader / AppendHeader / WriteBlock
+   itself, possibly for several io.Writers with the calls interleaved (a sharding exporter, a
+   mirror).  [fw_written ops w] is what writer w holds after the history; calls for other
+   writers and AppendHeader calls leave it alone.  If the calls that concern w are one
+   WriteHeader followed by WriteBlock calls whose blocks hold the declared number of records,
+   then w holds a valid container: the reader recovers schema, codec name and the sync marker
+   and delivers exactly the records of its blocks - every block is followed by the marker
+   that every header of this FileWriter carries. *)
+Require Import Avro.Proofs.ContainerP Avro.Proofs.FileP Avro.Proofs.FileWriterP.
+Theorem C09_filewriter_any_interleaving : forall compress decompress,
+  (forall x, decompress (compress x) = Some x) ->
+  forall schema_json codec_name sync, len schema_json < two63 -> len codec_name < two63 -> len sync = 16 ->
+  forall read_record ops w bl fuel,
+  filter (fw_for w) ops = FwHeader w :: map (fun p => FwBlock w (fst p) (snd p)) bl ->
+  Forall (fw_block_ok compress read_record) bl -> (length bl < fuel)%nat ->
+  exists body,
+    read_header (fw_written compress schema_json codec_name sync ops w)
+      = Some ({| h_meta := written_meta schema_json codec_name; h_sync := sync |}, body) /\
+    read_blocks decompress read_record (fun _ => None) fuel sync 0 body
+      = (total (map (vb_of_block compress) bl), FOk).
+Proof. exact filewriter_any_interleaving. Qed.
+Print Assumptions C09_filewriter_any_interleaving.
+
+(* AppendHeader keeps what the buffer held and appends the header WriteHeader writes *)
+Theorem C09_append_header : forall compress schema_json codec_name sync buf w,
+  fw_append schema_json codec_name sync buf = buf ++ fw_written compress schema_json codec_name sync [FwHeader w] w.
+Proof. exact append_header_is_header. Qed.
+Print Assumptions C09_append_header.
+
+(* non-vacuity: two files fed in turns through one FileWriter, one byte per record *)
+Example C09_filewriter_ex :
+  let sync := repeat 9 16 in
+  let rr := fun bs : bytes => match bs with [] => Err | _ :: r => Done tt r end in
+  let ops := [FwHeader 0; FwHeader 1; FwBlock 1 2 [7; 8]; FwAppend [1]; FwBlock 0 1 [5]; FwBlock 1 1 [9]] in
+  match read_header (fw_written (fun x => x) [115] [110] sync ops 1) with
+  | Some (h, body) => h_sync h = sync /\ read_blocks (fun x => Some x) rr (fun _ => None) 4 sync 0 body = (3%nat, FOk)
+  | None => False
+  end /\
+  match read_header (fw_written (fun x => x) [115] [110] sync ops 0) with
+  | Some (h, body) => read_blocks (fun x => Some x) rr (fun _ => None) 4 sync 0 body = (1%nat, FOk)
+  | None => False
+  end.
+Proof. cbv zeta. split; vm_compute; split; reflexivity || reflexivity. Qed.
